@@ -11,6 +11,16 @@ def tooBig (n r p keyLen : Int) : Bool :=
     with `want` (a published vector) a different key is `kat-mismatch <hex>` on both sides -/
 def handle (line : String) : String :=
   let o := parseOp line
+  if o.cmd == "pb" then
+    -- x/crypto/pbkdf2.Key(pw, salt, iter, keyLen, sha256.New): crypto/pbkdf2's refusals become a panic
+    match o.hex? "pw", o.hex? "salt", o.nat? "iter", o.int? "keyLen" with
+    | some pw, some salt, some it, some kl =>
+      if kl > 2 ^ 16 ∧ kl ≤ (2 ^ 32 - 1) * 32 then "too-big" else
+      match pbkdf2Std pw salt it kl with
+      | none => "panic"
+      | some k => s!"ok {toHex k}"
+    | _, _, _, _ => "bad-op"
+  else
   if o.cmd != "key" then "bad-op" else
   match o.hex? "pw", o.hex? "salt", o.int? "N", o.int? "r", o.int? "p", o.int? "keyLen" with
   | some pw, some salt, some n, some r, some p, some keyLen =>
